@@ -90,8 +90,9 @@ func c17Ref(a answer) (blobs [][]byte, comments []string, ok bool) {
 }
 
 var (
-	c17Farm *farm
-	c17PKI  *pki
+	c17Farm  *farm
+	c17PKI   *pki
+	c17Reuse = map[string]*crypki.Signer{}
 )
 
 func c17Signer(k c17Case) (*crypki.Signer, error) {
@@ -130,7 +131,17 @@ func c17Run(c *ev.Ctx, k c17Case) {
 		}
 		s.mu.Unlock()
 	}
-	signer, err := c17Signer(k)
+	var signer *crypki.Signer
+	var err error
+	reuseKey := fmt.Sprintf("%d/%v", len(k.Endpoints), k.NilList)
+	if s0, ok := c17Reuse[reuseKey]; ok && k.Ctx == "" && c17PerTry(k) > 5*time.Second && len(k.Endpoints) > 0 {
+		signer = s0 // the same long-lived Signer serves many requests while the CAs' answers change underneath it
+	} else {
+		signer, err = c17Signer(k)
+		if err == nil && k.Ctx == "" && c17PerTry(k) > 5*time.Second {
+			c17Reuse[reuseKey] = signer
+		}
+	}
 	if err != nil {
 		c.Outcome("newsigner-refuses/" + fmt.Sprint(len(k.Endpoints)))
 		if len(k.Endpoints) > 0 {
@@ -272,7 +283,7 @@ func c17Backoff(c *ev.Ctx, k c17Case) {
 }
 
 func checkC17(c *ev.Ctx) {
-	c.Rule("real crypki.NewSigner / Sign (Retries=1; per-try deadline 15 s, 1.5 s for vectors with a blocked handler) against harness gRPC Signing servers over real TLS on 127.0.0.1..4:port, one scripted answer each: every answer vector (with a live context; lists up to length 2 also with an already cancelled / already expired context, and blocked handlers with a 50 ms deadline) over endpoint lists of length 0..3 (quick; 6-answer alphabet {1/3 certificates with comments, Unavailable, Internal, empty key, one good line among bad}) and 0..4 (thorough; 13 answers incl. all status codes, 2 certificates, unparsable key, blocked handler in one position), nil and empty lists; oracle from per-endpoint request logs (strict order, stop at first success, request proto-equal, certificates/comments parallel, never an empty success). Back-off: complete grid attempts {0..64, 2^k-1, 2^k, 2^k+1 (k<=32)} x base {0,1ns,1ms,2s,=max} x max {0,1ms,15s,1h,2^53ns} x multiplier {1,1+2^-52,1.5,3,10,1e9,MaxFloat64} x jitter {0,0.2,1} x jitter-seam answers {0,0.5,1-2^-53}. non-trivial = vector with at least one endpoint / grid point with attempt>0; distinct by vector")
+	c.Rule("real crypki.NewSigner / Sign (Retries=1; per-try deadline 15 s, 1.5 s for vectors with a blocked handler) against harness gRPC Signing servers over real TLS on 127.0.0.1..4:port, one scripted answer each: every answer vector (with a live context; lists up to length 2 also with an already cancelled / already expired context, and blocked handlers with a 50 ms deadline) over endpoint lists of length 0..3 (quick; 6-answer alphabet {1/3 certificates with comments, Unavailable, Internal, empty key, one good line among bad}) and 0..4 (thorough; 13 answers incl. all status codes, 2 certificates, unparsable key, blocked handler in one position), nil and empty lists; one long-lived Signer per list length serves all vectors of that length (answers change between its calls); oracle from per-endpoint request logs (strict order, stop at first success, request proto-equal, certificates/comments parallel, never an empty success). Back-off: complete grid attempts {0..64, 2^k-1, 2^k, 2^k+1 (k<=32)} x base {0,1ns,1ms,2s,=max} x max {0,1ms,15s,1h,2^53ns} x multiplier {1,1+2^-52,1.5,3,10,1e9,MaxFloat64} x jitter {0,0.2,1} x jitter-seam answers {0,0.5,1-2^-53}. non-trivial = vector with at least one endpoint / grid point with attempt>0; distinct by vector")
 	c.Assume("configurations whose MaxDelay x (1+Jitter) is not representable as a time.Duration are outside the grid", "TLS/gRPC internals run with their own goroutines and real time; no timing oracle is used")
 	if c.ReplayCase != nil {
 		var k c17Case
